@@ -120,6 +120,12 @@ func isoExec(st *isoDoc, op Op) (string, string) {
 		switch op.Name() {
 		case "AddFootnote":
 			return errRet(d.AddFootnote(tok, "note "+tok))
+		case "AddFootnoteToRun":
+			p := d.AddParagraph(tok)
+			if len(p.Runs) == 0 {
+				return "err"
+			}
+			return errRet(d.AddFootnoteToRun(&p.Runs[0], "note "+tok))
 		case "AddEndnote":
 			return errRet(d.AddEndnote(tok, "endnote "+tok))
 		case "RemoveFootnote":
